@@ -156,6 +156,16 @@ theorem batch_schedule_bounded (cfg : CacheCfg) (max : Nat) (g : α → κ) (f :
   have := measure_run g f ls s s' hr
   omega
 
+/-- closed form: an index started with `N` batched requests and `D` direct calls runs at most
+    `N·(3N+5) + 2D` atomic sections, whatever the schedule -/
+theorem batch_schedule_length (cfg : CacheCfg) (max : Nat) (g : α → κ) (f : α → β) (reqTexts : List α)
+    (directTexts : List (List α)) (store0 : Dict κ β) (s' : State α κ β) (ls : List Label)
+    (hr : run cfg max g f (init reqTexts directTexts store0) ls = some s') :
+    ls.length ≤ reqTexts.length * (3 * (reqTexts.length + 1) + 2) + 2 * directTexts.length := by
+  have := batch_schedule_bounded cfg max g f _ s' ls hr
+  rw [measure_init] at this
+  exact this
+
 /-- **batch_progress.**  Take any schedule of the index started with any requests / direct calls — it is
     finite (`batch_schedule_bounded`) — and follow it until nothing more can run: then every request and
     every direct call has completed, each batched request with the model's vector of its own text and each
